@@ -8,6 +8,7 @@
 //! It also allows you to manage any type of label including the re-use label.
 
 use crate::crc::CrcCalculator;
+use std::cmp::min;
 use crate::gse_standard::{
     COMPLETE_PKT, CRC_LEN, END_PKT, FIRST_FRAG_LEN, FIRST_PKT, FIXED_HEADER_LEN, FRAG_ID_LEN,
     GSE_LEN_MASK, GSE_LEN_MAX, INTERMEDIATE_PKT, LABEL_3_B, LABEL_6_B, LABEL_BROADCAST,
@@ -375,7 +376,11 @@ impl<C: CrcCalculator> Encapsulator<C> {
             }
 
             pkt_type = PktType::FirstFragPkt;
-            pdu_len_encapsulated = buffer_len - min_header_len;
+            // the payload is limited by the buffer and by the 12 bits of the gse length field
+            pdu_len_encapsulated = min(
+                buffer_len - min_header_len,
+                GSE_LEN_MAX - (FRAG_ID_LEN + TOTAL_LENGTH_LEN + PROTOCOL_LEN + label_len),
+            );
             gse_len =
                 (FRAG_ID_LEN + TOTAL_LENGTH_LEN + PROTOCOL_LEN + label_len + pdu_len_encapsulated)
                     as u16;
@@ -533,8 +538,8 @@ impl<C: CrcCalculator> Encapsulator<C> {
         let pdu_len_encapsulated: usize;
         let encap_status: EncapStatus;
         // End packet
-        // if the rest of packet fits in the buffer
-        if buffer_len >= gse_end_len + FIXED_HEADER_LEN {
+        // if the rest of packet fits in the buffer and in the 12 bits of the gse length field
+        if buffer_len >= gse_end_len + FIXED_HEADER_LEN && gse_end_len <= GSE_LEN_MAX {
             header =
                 generate_gse_header(&PktType::EndFragPkt, &LabelType::ReUse, gse_end_len as u16);
             pdu_len_encapsulated = pdu_len_remaining;
@@ -549,7 +554,10 @@ impl<C: CrcCalculator> Encapsulator<C> {
         else if buffer_len > FIXED_HEADER_LEN + FRAG_ID_LEN {
             let gse_len: usize;
 
-            let pdu_len_available = buffer_len - (FIXED_HEADER_LEN + FRAG_ID_LEN);
+            let pdu_len_available = min(
+                buffer_len - (FIXED_HEADER_LEN + FRAG_ID_LEN),
+                GSE_LEN_MAX - FRAG_ID_LEN,
+            );
 
             if pdu_len_available > pdu_len_remaining {
                 gse_len = FRAG_ID_LEN + pdu_len_remaining;
@@ -882,7 +890,11 @@ pub fn encap_preview(
         }
 
         pkt_type = PktType::FirstFragPkt;
-        pdu_len_encapsulated = buffer_len - min_header_len;
+        // the payload is limited by the buffer and by the 12 bits of the gse length field
+        pdu_len_encapsulated = min(
+            buffer_len - min_header_len,
+            GSE_LEN_MAX - (FRAG_ID_LEN + TOTAL_LENGTH_LEN + PROTOCOL_LEN + label_len),
+        );
         gse_len = (FRAG_ID_LEN + TOTAL_LENGTH_LEN + PROTOCOL_LEN + label_len + pdu_len_encapsulated)
             as u16;
         pkt_len = gse_len + (FIXED_HEADER_LEN) as u16;
@@ -932,8 +944,8 @@ pub fn encap_frag_preview(
     let pkt_type: PktType;
     let pkt_len: u16;
     // End packet
-    // if the rest of packet fits in the buffer
-    if buffer_len >= gse_end_len + FIXED_HEADER_LEN {
+    // if the rest of packet fits in the buffer and in the 12 bits of the gse length field
+    if buffer_len >= gse_end_len + FIXED_HEADER_LEN && gse_end_len <= GSE_LEN_MAX {
         pdu_len_encapsulated = pdu_len_remaining;
 
         let mut buffer_offset = FIXED_HEADER_LEN + FRAG_ID_LEN + pdu_len_encapsulated;
@@ -946,7 +958,10 @@ pub fn encap_frag_preview(
     else if buffer_len > FIXED_HEADER_LEN + FRAG_ID_LEN {
         let gse_len: usize;
 
-        let pdu_len_available = buffer_len - (FIXED_HEADER_LEN + FRAG_ID_LEN);
+        let pdu_len_available = min(
+            buffer_len - (FIXED_HEADER_LEN + FRAG_ID_LEN),
+            GSE_LEN_MAX - FRAG_ID_LEN,
+        );
 
         if pdu_len_available > pdu_len_remaining {
             gse_len = FRAG_ID_LEN + pdu_len_remaining;
